@@ -64,6 +64,7 @@ fn main() {
         notes: Vec::new(),
         opaque: Vec::new(),
         req_ignore_assign: Vec::new(),
+        effect_arg: None,
     };
     let _ = FEATURES.set(spec.cfg_features.clone());
     let mut results = Vec::new();
